@@ -60,7 +60,9 @@ CARRIED = ("incontains", "child_permission", "blocklevel", "associations")   # d
 class Cascade:
     def __init__(self, py: PyModel):
         self.py = py
-        fn = py.func("FortranContainer.__init__")
+        # canonical form: helpers called from the loop body (`self._add_interface_block(...)`) are inlined, so that an arm is
+        # what it does, however it is cut into methods
+        fn = py.ifunc("FortranContainer.__init__")
         self.fn = fn
         params = [a.arg for a in fn.args.args]
         loops = [n for n in fn.body if isinstance(n, ast.For) and isinstance(n.iter, ast.Name) and n.iter.id in params
@@ -127,6 +129,12 @@ class Cascade:
         """classify one conjunct; returns False if not understood."""
         if isinstance(t, ast.NamedExpr):
             return self._atom(arm, t.value)
+        # truth-value wrappers around a match: bool(m), m is not None
+        if isinstance(t, ast.Call) and isinstance(t.func, ast.Name) and t.func.id == "bool" and len(t.args) == 1 and not t.keywords:
+            return self._atom(arm, t.args[0])
+        if isinstance(t, ast.Compare) and len(t.ops) == 1 and isinstance(t.ops[0], ast.IsNot) and \
+                isinstance(t.comparators[0], ast.Constant) and t.comparators[0].value is None:
+            return self._atom(arm, t.left)
         if isinstance(t, ast.Call) and isinstance(t.func, ast.Attribute) and t.func.attr in ("match", "search") \
                 and isinstance(t.func.value, ast.Attribute) and ast.unparse(t.func.value.value) == "self" \
                 and len(t.args) == 1 and ast.unparse(t.args[0]) == self.line_var:
@@ -162,8 +170,32 @@ class Cascade:
     def _body(self, arm: Arm):
         py = self.py
 
+        # local names that stand for one of the container's own lists: `x = self.A` / `x = self.A if c else self.B`
+        aliases: Dict[str, List[str]] = {}
+        for a in ast.walk(ast.Module(body=arm.body, type_ignores=[])):
+            if isinstance(a, ast.Assign) and len(a.targets) == 1 and isinstance(a.targets[0], ast.Name):
+                alts = [a.value.body, a.value.orelse] if isinstance(a.value, ast.IfExp) else [a.value]
+                if all(isinstance(v, ast.Attribute) and isinstance(v.value, ast.Name) and v.value.id == "self" for v in alts):
+                    aliases[a.targets[0].id] = [v.attr for v in alts]
+
+        def list_dests(m: ast.Call) -> List[str]:
+            """the self.<list>s that `m` (an append/extend call) adds to"""
+            if not (isinstance(m.func, ast.Attribute) and m.func.attr in ("append", "extend")):
+                return []
+            r = m.func.value
+            if isinstance(r, ast.Attribute) and isinstance(r.value, ast.Name) and r.value.id == "self":
+                return [r.attr]
+            if isinstance(r, ast.Name) and r.id in aliases:
+                return aliases[r.id]
+            return []
+
         def visit(stmts, conds: List[str]):
             for st in stmts:
+                if isinstance(st, ast.Expr) and isinstance(st.value, ast.Constant) and isinstance(st.value.value, str):
+                    from .inline import MARKER
+                    if st.value.value.startswith(MARKER):      # an inlined helper: recorded like a call of it
+                        arm.calls.add(st.value.value[len(MARKER):])
+                    continue
                 if isinstance(st, ast.If):
                     t = ast.unparse(st.test)
                     visit(st.body, conds + [t])
@@ -214,9 +246,8 @@ class Cascade:
                     p = py.parents.get(n)
                     hops = 0
                     while p is not None and hops < 6:
-                        if isinstance(p, ast.Call) and call_name(p).startswith("self.") and \
-                                call_name(p).split(".")[-1] in ("append", "extend"):
-                            dest = call_name(p).split(".")[1]
+                        if isinstance(p, ast.Call) and list_dests(p):
+                            dest = "|".join(list_dests(p))
                             break
                         if isinstance(p, ast.stmt):
                             break
@@ -226,10 +257,11 @@ class Cascade:
                         # intr = FortranInterface(...): find later self.X.append/extend(intr...)
                         var = st.targets[0].id
                         for m in ast.walk(ast.Module(body=arm.body, type_ignores=[])):
-                            if isinstance(m, ast.Call) and call_name(m).startswith("self.") and \
-                                    call_name(m).split(".")[-1] in ("append", "extend") and m.args and \
+                            if isinstance(m, ast.Call) and list_dests(m) and m.args and \
                                     any(isinstance(x, ast.Name) and x.id == var for x in ast.walk(m.args[0])):
-                                dest = (dest + "|" if dest else "") + call_name(m).split(".")[1]
+                                for dd in list_dests(m):
+                                    if dd not in (dest or "").split("|"):
+                                        dest = (dest + "|" if dest else "") + dd
                     perm = None
                     r = py.resolve_method(last, "__init__")
                     pidx = 3
@@ -248,7 +280,9 @@ class Cascade:
                 if cn in ("line_to_variables", "get_mod_procs"):
                     dest = None
                     p = py.parents.get(n)
-                    if isinstance(p, ast.Call) and call_name(p).startswith("self."):
+                    if isinstance(p, ast.Call) and list_dests(p):
+                        dest = "|".join(list_dests(p))
+                    elif isinstance(p, ast.Call) and call_name(p).startswith("self."):
                         dest = call_name(p).split(".")[1]
                     perm = None
                     if cn == "line_to_variables":
